@@ -148,7 +148,7 @@ impl Scenario for Events {
         let rate_class = (run % 4) as u8;
         cfg.rate = rate_class;
         let rate_pct = [0u64, 2, 10, 30][rate_class as usize];
-        let n = rng.range(10, if tier == Tier::Quick { 120 } else { 300 }) as usize;
+        let n = marathon(run, rng.range(10, if tier == Tier::Quick { 120 } else { 300 }) as usize);
         let fault_limit = n * 2 / 3;
         // how modifier-heavy the session is: a biased walk over the 512-state cube
         let mod_bias = *rng.pick(&[20u64, 50, 80]);
